@@ -209,3 +209,49 @@ Section ObjectDb.
     forallb (fun kv => wf_py (fst (snd kv)) && wf_py (snd (snd kv))) s.
   Definition wf_db (d : objdb) : bool := forallb (fun ps => wf_scopes (snd ps)) d.
 End ObjectDb.
+
+(* ------------------------------------------------------------------------------------------------
+   Ignored resources. History.do records a change iff some resource of get_changed_resources() is
+   not ignored (History._is_change_interesting); a recorded change set is kept WHOLE, its children
+   on ignored resources ('*~' backups, '*.pyc', files under .venv ...) included, and ChangeToData
+   never asks whether a resource is ignored. [ign] is Project.is_ignored on paths. *)
+Fixpoint changed_paths (c : change) : list text :=
+  match c with
+  | CContents p _ _ => [p]
+  | CMove p _ q => [p; q]
+  | CCreate p _ => [p]
+  | CRemove p _ => [p]
+  | CSet _ cs _ => flat_map changed_paths cs
+  end.
+
+(* the primitive changes in the order in which do() performs them *)
+Fixpoint leaves (c : change) : list change :=
+  match c with
+  | CSet _ cs _ => flat_map leaves cs
+  | _ => [c]
+  end.
+
+(* leaf entries of saved data: every tagged tuple that is not a ChangeSet *)
+Fixpoint data_leaves (d : data) : list data :=
+  match d with
+  | DTuple [DStr tag; DTuple [DStr _; DList ds; _]] =>
+      if text_eqb tag t_ChangeSet then flat_map data_leaves ds else [d]
+  | _ => [d]
+  end.
+
+Section Ignored.
+  Variable ign : text -> bool.
+  Definition interesting (c : change) : bool := existsb (fun p => negb (ign p)) (changed_paths c).
+  Definition touches_ignored (c : change) : bool := existsb ign (changed_paths c).
+  (* a change that is recorded although part of it works on ignored resources *)
+  Definition mixed (c : change) : bool := interesting c && touches_ignored c.
+  Definition ignored_leaves (c : change) : list change := filter touches_ignored (leaves c).
+
+  (* History.do after the change itself was performed: append when interesting and trim to the
+     limit (_remove_extra_items), the redo list is emptied in either case *)
+  Definition hist_do (limit : nat) (h : hist) (c : change) : hist :=
+    {| undo_list := if interesting c then trim limit (undo_list h ++ [c]) else undo_list h;
+       redo_list := [] |}.
+End Ignored.
+
+Definition ign_of (l : list text) (p : text) : bool := existsb (text_eqb p) l.
